@@ -98,6 +98,10 @@ def run(ctx):
     for sp in spl:
         sp['opts']['split'] = '3h'
     specs += spl
+    # periodic contracts / transports without restrictions of their own (two variables per step, or a periodicity duration), followed by other assets
+    per = gen.gen_many(ctx.seed, n // 3, dict(CFG, p_coarse=0.0, p_periodic=1.0, p_spread=0.9, n_assets=(2, 4), freqs=['h'], T=(6, 10),
+                                              kinds={'SimpleContract': 4, 'Transport': 2, 'Storage': 1}), 'c04per_')
+    specs += per
     specs = ctx.specs(specs)
     res = C.run_impl('portfolio', specs)
     exprs, owners = [], []
